@@ -329,7 +329,10 @@ func (m apiNoBodyStruct) Request(ctx context.Context, req http.RequestGetter, fi
 		}
 		p.WriteFieldBegin(f.Name(), f.Type().Type(), f.ID())
 		if !ok || val == "" {
-			p.WriteDefaultOrEmpty(f)
+			if err := p.WriteDefaultOrEmpty(f); err != nil {
+				p.Recycle()
+				return "", err
+			}
 		} else {
 			// TODO: pass conv options to decide
 			if err := p.WriteStringWithDesc(val, f.Type(), opts.DisallowUnknownField, !opts.NoBase64Binary); err != nil {
